@@ -76,6 +76,7 @@ class Norm:
     def __init__(self, a, symmap):
         self.a = a
         self.sym = symmap     # {stripped term: name}
+        self.dh_types = set()
 
     def at(self, t, site_bb):
         return self.n(t, self.a.term_point(site_bb))
@@ -122,7 +123,8 @@ class Norm:
             p2 = a.term_point(site)
             info = t[4] if len(t) > 4 else None
             if path in ('dhkex::DhKeyExchange::dh',):
-                return ('DH', self.n(args[0], p2), self.n(args[1], p2), info[2] if info else None)
+                self.dh_types.add(info[2] if info else None)
+                return ('DH', self.n(args[0], p2), self.n(args[1], p2))
             if path == 'Serializable::to_bytes':
                 return ('Ser', self.n(args[0], p2))
             if path in ('kem::Kem::sk_to_pk', 'dhkex::DhKeyExchange::sk_to_pk'):
